@@ -13,6 +13,9 @@ CHECKS = {
  "C01": ("exploration", "runtime monitoring: online prefix checker over position-addressable payloads on recorded in-memory transports, virtual time",
          "Thousands of generated multiplexing executions of the real client/server Session pair (1-8 streams, boundary-heavy chunk sizes incl. >64 KiB and empty, three submission and three read paths, seeded transport fragmentation / back-pressure / spurious Pending, random padding schemes, forced yields) with every delivered byte compared online against the byte written at that offset, completeness at quiescence and 'nothing more'. Held on the executions observed, not a proof.",
          "trusts tokio's paused clock/scheduler and the pattern generator; streams are not closed in this workload (C08)", "DESIGN.md §6 C01"),
+ "C02": ("exploration", "runtime monitoring: scripted hostile peer (reference codec) + per-stream tagged payload checker, virtual time",
+         "A raw scripted peer interleaves hostile but well-formed frames (ids never opened / finished / reused, duplicate SYN, stray SYNACK/FIN, unknown commands) with tagged data for up to 16 live streams of a real client or server Session, randomly and at every frame boundary of clean scripts; every stream must read exactly its own bytes and end iff its own FIN came; plus the cooperative 2-16 stream workload of C01.",
+         "a duplicate SYN/FIN for id a may end id a (only other ids judged); alerts excluded (C09)", "DESIGN.md §6 C02"),
  "C03": ("exploration", "runtime differential monitoring against an independent reference codec (exhaustive header grid in the thorough tier)",
          "Differential execution of FrameCodec against a 40-line reference on the header-only grid (all 256 command bytes x all 65536 lengths in the thorough tier), round trips over boundary ids/lengths, oversize attempts, concatenations cut at every position/pair, and arbitrary byte strings; frames, consumed counts and exact leftover compared after every feed.",
          "trusts the reference codec; stream ids and payload contents sampled", "DESIGN.md §6 C03"),
@@ -22,9 +25,51 @@ CHECKS = {
  "C05": ("exploration", "runtime monitoring: nondeterministic reference acceptor over recorded write-call boundaries",
          "The preamble and the write-length sequence of every early session packet, recorded on a transport that accepts whole writes, are checked against a nondeterministic acceptor for the scheme line of that packet (unpadded at/after stop and on the server side) for tens of thousands of generated schemes and payload sizes placed around the scheme's own sizes.",
          "write boundaries = write_all calls because the MemPipe accepts whole writes; padding byte values not judged", "DESIGN.md §6 C05"),
+ "C06": ("exploration", "runtime monitoring of authenticate_client on a monitored transport (consumed-byte sentinel), systematic preamble mutation",
+         "The real authenticate_client on a MemPipe in 5 fragmentation classes: all single-bit flips, single-byte deviations at every position, correct prefixes/suffixes, related-password hashes (must be rejected), valid preambles with every declared padding length in the thorough tier followed by a sentinel frame (must be accepted and leave exactly the sentinel), every truncation (must not be accepted, must not hang).",
+         "function level on in-memory transports; SHA-256 from the sha2 crate computes expected hashes", "DESIGN.md §6 C06"),
+ "C07": ("exploration", "runtime monitoring over loopback with server-side hook events (Destination/Dial/UdpTarget), fake DNS behind the real resolver",
+         "Real Client -> real Server over loopback TLS (API, SOCKS5 front-end, destination header fragmented over PSH frames into the real handler on a MemPipe session): IPv4/IPv6 literals incl. special ones, names of every length class 1..255, boundary ports; the server must decode the destination unchanged and dial exactly (address of the requested host, requested port), confirmed by accept for loopback targets; UDP association targets; request/resolver histories that exercise the resolver cache (same host other ports, other hosts, TTL crossing in the thorough tier).",
+         "the Dial hook fires right before TcpStream::connect; non-local connects are refused at once in the sandbox; fake DNS serves one A record per name", "DESIGN.md §6 C07"),
+ "C08": ("exploration", "runtime monitoring: scripted-peer FIN workload under virtual time + loopback close/half-close matrix with byte-exact and EOF observation",
+         "Session level: PSH..PSH,FIN for 1-8 streams against real client/server Sessions (reader sees all bytes then EOF iff its FIN was sent, other direction keeps working, tables hold exactly the unfinished streams). End to end through SOCKS5 and HTTP CONNECT: application and target close / half-close in both orders with 0-300000 bytes in flight: every byte arrives, then end of stream within the bound, the other direction still carries data, the second endpoint sees EOF too, and complete request cycles leave no tasks behind.",
+         "EOF at the e2e level is decided with a 4 s / 10 s bound on loopback", "DESIGN.md §6 C08"),
+ "C09": ("fault_enumeration", "runtime monitoring with fault injection at byte offsets / logical steps on monitored transports, virtual time, forced pre-emptions around close()",
+         "Fault runs (scenario x side x cause x position [x forced pre-emption]) over 8 scenarios and 9 termination causes injected at every frame boundary, inside headers and payloads, and after every logical step; 120 virtual seconds after the cause every waiter (readers, in-flight writers, pending opens, the close call) must have completed, the session must be visibly closed, the transport shut down, later write/open must fail promptly, no session task may be alive and the tables must be empty.",
+         "bounded progress: 120 virtual seconds counts as forever; tokio's paused clock advances only when every task is idle", "DESIGN.md §6 C09"),
+ "C10": ("exploration", "runtime monitoring: real stack over loopback + scripted TLS peer controlling SYNACK timing + session-level first-outcome grid",
+         "Accepting / refusing / unresolvable targets through create_proxy_stream, SOCKS5 (incl. an early-sending application), HTTP CONNECT and GET with 32 opens in flight on shared sessions; the real Client against a scripted TLS peer (SYNACK ok/error at chosen instants incl. 10/25/33 s and never in the thorough tier, duplicated, for unknown ids, before the destination, connection close and Alert during the wait); first-outcome-wins at session level under virtual time. Verdict, completion time window, error text, accept log and bytes at targets are compared with the scripted truth.",
+         "real-time windows are generous (+4-5 s) and separate only well-spaced instants", "DESIGN.md §6 C10"),
  "C11": ("exploration", "runtime monitoring with systematic pre-emption enumeration at named scheduling points; merge-order checker over the recorded wire",
          "Tagged frames from 1-5 concurrent request tasks (+ keep-alives) on one fresh session; every single pre-emption position x 4 yield lengths, all pairs for small scenarios, random schedules and a multi-worker runtime; the recorded wire must be a merge of the per-task submission logs with Settings first and SYN before PSH, and the peer stream must receive the concatenated payloads.",
          "a forced yield at a hook models pre-emption by another worker; at most two forced pre-emptions enumerated systematically", "DESIGN.md §6 C11"),
+ "C12": ("exploration", "runtime monitoring: property rules applied in lock-step to the real SessionPool under virtual time (exhaustive short sequences + random) and PoolReap events joined with live streams at client level",
+         "All operation sequences of length <= 4 plus random sequences (add, get, concurrent gets, external death, clock advance, manual tick, return) over check_interval / idle_timeout / min_idle grids on a real SessionPool with real client Sessions; after every step: no closed / non-idle / duplicate session handed out, no in-use or unexpired session closed by the reaper, never fewer than min(min_idle, before) idle sessions left, surplus expired sessions gone after idle_timeout + check_interval. Client level: real Client/Server with 150/300 ms housekeeping and long-lived streams: no PoolReap for a session that carries a live stream, every live stream keeps working.",
+         "'eventually' = within idle_timeout + check_interval + 1 s of virtual quiet time; client-level verdicts are logical, not timing based", "DESIGN.md §6 C12"),
+ "C13": ("exploration", "runtime monitoring over loopback behind a TLS-connection-counting relay (histories of complete requests)",
+         "Sequential histories of 3-200 complete SOCKS5 requests and bursty rounds of 2-16 concurrent requests through the real Client/Server behind a TCP relay that counts TLS connections: non-overlapping requests must not open new connections and the number of open connections stays within peak concurrency + min_idle.",
+         "a request counts as finished once the application socket saw end of stream plus 60 ms; server and relay stay up", "DESIGN.md §6 C13"),
+ "C14": ("exploration", "runtime monitoring on a configuration grid under virtual time with delayed in-memory links and recorded keep-alive frames",
+         "Client Session with heartbeat (interval, timeout) from the grid {1,2,5,10,30,60,300} s squared against a real server Session over MemPipes with one-way delay (RTT 0-0.99 x timeout), with no / light / flooding stream traffic; healthy peers for 50 intervals must never be closed (keep-alive exchanges counted on the recorded pipes); peers that go dead at 5 characteristic instants must be closed, with reader and pending open released, by (delivery time of the last response read from the pipe log) + timeout + interval.",
+         "'dead' = black hole in both directions; zero intervals excluded (configuration panic in tokio::time::interval)", "DESIGN.md §6 C14"),
+ "C15": ("exploration", "runtime monitoring: lock-step unique datagrams through the real UDP-over-TCP path on loopback + fragmented record streams into the real handler",
+         "create_udp_proxy -> real Server -> recording UDP sockets on 127.0.0.1, random 127.a.b.c and ::1 (with a decoy socket): unique datagrams of boundary and uniform sizes up to 65507 bytes in both directions must arrive once, whole, unaltered, at the right socket; and the length-prefixed record stream cut arbitrarily across PSH frames and read pieces into the real handle_udp_over_tcp must yield exactly one identical datagram per record (and one record per returned datagram).",
+         "lock-step on loopback excludes socket-buffer loss; 6 s decides 'never delivered'", "DESIGN.md §6 C15"),
+ "C16": ("exploration", "runtime differential monitoring of the SOCKS5 listener against a small reference model, with Dial events and target accepts",
+         "Raw loopback connections to the real start_socks5_server: every greeting version byte, method lists 0..255 with/without no-auth, every command code, every address type, domain lengths 0..255 and invalid UTF-8, port boundaries, accepting/refusing targets, delivered in parts / one segment / byte at a time / split at every position; method reply, connect reply, Dial events and target accepts compared with a 30-line reference model (closing without a reply counts as refusing).",
+         "one shared Client/Server pair, 32 connections in flight, so collateral damage between connections would show", "DESIGN.md §6 C16"),
+ "C17": ("exploration", "runtime monitoring: grammar-generated requests with expected outcome by construction, observed at loopback origins (incl. ports 80/443)",
+         "Requests generated together with their expected outcome (methods, CONNECT authority / absolute http(s) URI / origin-form + Host, names / IPv4 / bracketed IPv6, explicit or default ports, 0-60 header lines incl. heads just under 64 KiB, Host header anywhere / any letter case / absent, 0-8 KiB early body or tunnel bytes plus later bytes) sent through the real start_http_proxy_server; the origin connection carrying the request's token must arrive at exactly the named authority with the expected request line, unchanged non-Host headers in order, a Host naming the same authority, and byte-exact body / tunnel bytes.",
+         "first request per connection only; heads above 64 KiB may be rejected", "DESIGN.md §6 C17"),
+ "C18": ("fault_enumeration", "runtime monitoring with on-disk fault enumeration: in-memory TLS handshake (recording verifier) against the current acceptor after every step",
+         "File-state fault sequences against the real CertReloader (pairs A, B, C, expired E): two-file updates with a reload between every pair of writes, each file replaced alone / garbage / empty / missing / swapped, truncation prefixes (every byte in the thorough tier), random 20-200 step sequences, a concurrent rewriter; reload() must be Ok iff the files hold a complete matching (unexpired) pair, failures change nothing (presented leaf, info, counters), successes are served by every later handshake, an old TLS connection keeps working.",
+         "a file is complete when the whole PEM block is present; rcgen/rustls generate and verify the pairs", "DESIGN.md §6 C18"),
+ "C19": ("exploration", "runtime monitoring: reference acceptor over recorded write boundaries across scheme pushes, one fresh sub-process per history",
+         "Histories of 1-3 sessions per fresh process (built-in default used before / not used), each a real client Session against a raw scripted server pushing one of 4 generated schemes 1-4 times, re-pushing the initial one, or pushing unparsable schemes; every packet after a processed push must be accepted by the reference acceptor for the pushed scheme's line of that packet, unparsable pushes change nothing and do not end the session.",
+         "pushes are processed at quiescent points (1 virtual second after the frame)", "DESIGN.md §6 C19"),
+ "C20": ("exploration", "runtime monitoring under hostile input: process-wide panic hook, task-liveness and CPU-qualified watchdog, sibling-session check, virtual time",
+         "Random bytes, mutated valid traffic (bit flips, truncation, duplication, reordering, length/command/id corruption), settings and scheme payload fuzz, command x id x length bursts and the single-frame grid against real client and server Sessions with open streams; the owner keeps using the session, then the peer leaves: no panic anywhere, owner calls return within 120 virtual seconds, the victim's output still parses, the session closes and no task survives, a sibling session pair in the same runtime still moves tagged data correctly; a case that burns CPU without finishing is reported as a spin.",
+         "frame level on in-memory transports; alerts legitimately end a session", "DESIGN.md §6 C20"),
 }
 REASON_PENDING = "check under construction (see DESIGN.md); not yet claimed"
 
